@@ -458,7 +458,7 @@ func (g *Graph) Loaders(pkgs map[string]bool) map[*ssa.Function]bool {
 					continue
 				}
 				for _, a := range ci.Common().Args[1:] {
-					if p, isParam := a.(*ssa.Parameter); isParam && p.Parent() == f && len(f.Params) > 0 && p != f.Params[0] {
+					if p, isParam := accessorRoot(a, 0).(*ssa.Parameter); isParam && p.Parent() == f && len(f.Params) > 0 && p != f.Params[0] {
 						out[f] = true
 						changed = true
 					}
@@ -649,4 +649,43 @@ func (g *Graph) GlobalMutations(pkgs map[string]bool) []GlobalMutation {
 		}
 	}
 	return out
+}
+
+// accessorRoot follows a chain of accessor calls (x.FieldHash().Link(), x.Must(), conversions, interface boxing) back to
+// the value the chain starts from: the wrapper of a loader may hand it a part of its own parameter.
+func accessorRoot(v ssa.Value, depth int) ssa.Value {
+	if depth > 6 || v == nil {
+		return v
+	}
+	switch x := v.(type) {
+	case *ssa.MakeInterface:
+		return accessorRoot(x.X, depth+1)
+	case *ssa.ChangeInterface:
+		return accessorRoot(x.X, depth+1)
+	case *ssa.ChangeType:
+		return accessorRoot(x.X, depth+1)
+	case *ssa.TypeAssert:
+		return accessorRoot(x.X, depth+1)
+	case *ssa.UnOp:
+		if x.Op == token.MUL {
+			return accessorRoot(x.X, depth+1)
+		}
+	case *ssa.Extract:
+		if x.Index == 0 {
+			return accessorRoot(x.Tuple, depth+1)
+		}
+	case *ssa.Call:
+		cc := x.Common()
+		name := ""
+		var recv ssa.Value
+		if cc.IsInvoke() {
+			name, recv = cc.Method.Name(), cc.Value
+		} else if f := cc.StaticCallee(); f != nil && f.Signature.Recv() != nil && len(cc.Args) > 0 {
+			name, recv = f.Name(), cc.Args[0]
+		}
+		if recv != nil && (strings.HasPrefix(name, "Field") || name == "Link" || name == "Must" || name == "AsLink" || name == "LookupByString") {
+			return accessorRoot(recv, depth+1)
+		}
+	}
+	return v
 }
